@@ -7,6 +7,8 @@
   comparison is decided by the kernel over all 1 680 shapes × 19 inputs.
 -/
 import H2.Proofs.Shapes
+import H2.Proofs.StreamLemmas
+import H2.Proofs.RecvWF
 
 namespace H2.C06
 open H2 H2.Gen
@@ -131,6 +133,80 @@ theorem C06_send_only_where_permitted (sh : Shape) (i : StreamInputs) (tgt : Str
   cases hi : (i == StreamInputs.SEND_WINDOW_UPDATE) with
   | true => exact absurd (by simpa using hi) hwu
   | false => simpa [hi] using this
+
+/-! ### streams that are still idle (the connection's part of section 5.1)
+
+  A frame other than HEADERS / PRIORITY (and the tolerated RST_STREAM / ALTSVC) for a stream id the connection has not
+  seen yet — not in the table and above the high-water mark of its side — is a connection error: the handler raises
+  NoSuchStreamError with PROTOCOL_ERROR, which is not the StreamClosedError that `_receive_frame` answers with
+  RST_STREAM, so `receive_data` ends the connection (C18). -/
+
+/-- the exception of a lookup on an idle stream: a ProtocolError with code PROTOCOL_ERROR that is not a
+    StreamClosedError -/
+def idleErr (sid : Int) : Exc := .h2 .NoSuchStreamError (some 1) (some sid) []
+
+theorem idleErr_is_connection_error (sid : Int) :
+    (idleErr sid).isInstance .ProtocolError = true ∧ (idleErr sid).isInstance .StreamClosedError = false :=
+  ⟨rfl, rfl⟩
+
+open H2.Conn in
+/-- **WINDOW_UPDATE on an idle stream** is a connection error (PROTOCOL_ERROR); the window is not touched -/
+theorem C06_idle_window_update (c : Conn) (sid incr : Int) (hs : sid ≠ 0)
+    (hno : hasStream c sid = false)
+    (hidle : sid > (if streamIdIsOutbound c sid then c.highestOut else c.highestIn))
+    (hopen : c.cstate = .CLIENT_OPEN ∨ c.cstate = .SERVER_OPEN) :
+    wp (receiveWindowUpdateFrame sid incr) (fun _ _ => False) (fun e c' => e = idleErr sid ∧ c' = c) c := by
+  have htab : connTable c.cstate .RECV_WINDOW_UPDATE = some c.cstate := by
+    rcases hopen with h | h <;> simp [h, connTable]
+  have hc : ({ c with cstate := c.cstate } : Conn) = c := by cases c; rfl
+  unfold receiveWindowUpdateFrame
+  wps
+  rw [wp_connInput_ok _ _ _ htab, hc]
+  have hs' : (sid != 0) = true := by simpa using hs
+  simp only [hs', if_true]
+  wps
+  rw [wp_getStreamById_eq, hno]
+  simp only [Bool.false_eq_true, if_false, hidle, if_true]
+  first | exact ⟨rfl, rfl⟩ | trivial
+
+open H2.Conn in
+/-- **DATA on an idle stream** is a connection error (PROTOCOL_ERROR) -/
+theorem C06_idle_data (c : Conn) (sid : Int) (p : Bytes) (es : Bool) (fcl : Int)
+    (hno : hasStream c sid = false)
+    (hidle : sid > (if streamIdIsOutbound c sid then c.highestOut else c.highestIn))
+    (hopen : c.cstate = .CLIENT_OPEN ∨ c.cstate = .SERVER_OPEN) :
+    wp (receiveDataFrame sid p es fcl) (fun _ _ => False)
+      (fun e _ => e = idleErr sid ∨ e.isInstance .FlowControlError = true) c := by
+  have htab : connTable c.cstate .RECV_DATA = some c.cstate := by
+    rcases hopen with h | h <;> simp [h, connTable]
+  have hc : ({ c with cstate := c.cstate } : Conn) = c := by cases c; rfl
+  unfold receiveDataFrame
+  wps
+  rw [wp_connInput_ok _ _ _ htab, hc]
+  wps
+  rw [wp_onConnWM]
+  cases hw : c.inWM.window_consumed fcl with
+  | mk r w =>
+    cases r with
+    | error e =>
+      simp only
+      right
+      unfold WindowManager.window_consumed at hw
+      simp only at hw
+      split at hw <;> simp at hw
+      obtain ⟨h1, _⟩ := hw
+      subst h1
+      decide
+    | ok v =>
+      simp only
+      wps
+      rw [wp_getStreamById_eq]
+      have hno' : hasStream { c with inWM := w } sid = false := hno
+      rw [hno']
+      have hidle' : sid > (if streamIdIsOutbound { c with inWM := w } sid then ({ c with inWM := w } : Conn).highestOut
+          else ({ c with inWM := w } : Conn).highestIn) := hidle
+      simp only [Bool.false_eq_true, if_false, hidle', if_true]
+      first | exact ⟨rfl, Or.inl rfl⟩ | exact Or.inl rfl | trivial
 
 -- @also H2.good_step
 /-- non-vacuity: the reference machine accepts the ordinary request/response life of a stream -/
